@@ -262,3 +262,10 @@ def run(ctx):
             tm5.rel,
             c.lineno,
         )
+
+    # ---- C18.7 hashes are functions of the hashed value alone ------------------------------------------
+    r7 = ctx.rule("C18.7", "no hash function reads module-level mutable state (memo tables)", floor=10)
+    from ..flow import hash_purity_obligations
+
+    for construct, ok, msg, rel_, line in hash_purity_obligations(repo):
+        r7.check(ok, construct, msg, rel_, line)
